@@ -67,6 +67,7 @@ def prepare():
 # case strategies
 # --------------------------------------------------------------------------------------
 SPECIES = "ABCDEFGH"
+DEFAULT_COSTS = {"spe": 0, "dup": 1, "hgt": 1, "floss": 1, "sloss": 1}
 # species names that are prefixes of each other or differ by more than case
 TRICKY_SPECIES = ["A", "AB", "S2", "B", "Ba", "s0", "c1", "D"]
 # names equal up to case: legal wherever the leaf assignment is explicit (species inference from
@@ -180,6 +181,8 @@ def _input(draw, labelled, max_obj, max_sp, max_fam, polytomy=False, coherent=Tr
         spec["cost_float"] = True
     if draw(st.integers(0, 2)) == 0:
         spec["own_costs"] = True
+    if spec["costs"] == DEFAULT_COSTS and draw(st.booleans()):
+        spec["implicit_costs"] = True
     if pool is UNDERSCORE_SPECIES:
         names = list(pool[:nsp])
         intended = {leaf: next(sp for sp in sorted(names, key=len, reverse=True)
@@ -432,6 +435,8 @@ def spec_document(spec):
     }
     if spec.get("infer"):
         del doc["leaf_object_species"]  # inferred from the `<species>_<suffix>` leaf names
+    if spec.get("implicit_costs") and spec["costs"] == DEFAULT_COSTS and not spec.get("cost_float"):
+        del doc["costs"]  # a document that relies on the documented default cost vector
     if spec["syn"] is not None:
         syn = {leaf: list(s) for leaf, s in spec["syn"].items()}
         if spec["root_order"] is not None:
